@@ -98,13 +98,18 @@ def playback(ctx, harness, variant, stubbing=False, cfg_hooks=False, timeout=180
     if stubbing: cmd += ["-Z", "stubbing"]
     env = {"RUSTFLAGS": f"--cfg {GUARD}"} if cfg_hooks else {}
     rc, out = sh(cmd, cwd=cd, timeout=timeout, env=env, memlimit_kb=MEM_KB)
-    m = re.search(r"```\s*\n(.*?)```", out, re.S)
-    if not m:
-        return None, None, "no concrete playback test produced"
-    test = m.group(1)
-    tm = re.search(r"fn (kani_concrete_playback_\w+)", test)
-    tname = tm.group(1)
-    replay_path = save_replay(ctx, f"{harness}.playback.rs", test)
+    blocks = re.findall(r"```\s*\n(.*?)```", out, re.S)
+    blocks = [b for b in blocks if "kani_concrete_playback_" in b and "Check for `cover`" not in b]
+    if not blocks:
+        return None, None, "no concrete playback test produced for a failed check"
+    # several failed checks give several tests; rename so they can coexist, keep at most 4
+    tests, tnames = [], []
+    for k, b in enumerate(blocks[:4]):
+        tm = re.search(r"fn (kani_concrete_playback_\w+)", b)
+        nn = f"{tm.group(1)}_{k}"
+        tests.append(b.replace(tm.group(1), nn)); tnames.append(nn)
+    test = "\n".join(tests)
+    replay_path = save_replay(ctx, f"{harness.replace('::', '.')}.playback.rs", test)
     # scratch copy of the harness crate with the test appended to the harness' module
     scratch = os.path.join(WORK, "kani-pb-crate")
     shutil.rmtree(scratch, ignore_errors=True)
@@ -112,22 +117,19 @@ def playback(ctx, harness, variant, stubbing=False, cfg_hooks=False, timeout=180
     toml = open(os.path.join(cd, "Cargo.toml")).read().replace(f'{KANI_SRC}/src/lib.rs', f'{scratch}/src/lib.rs')
     open(scratch + "/Cargo.toml", "w").write(toml)
     shutil.copy(os.path.join(cd, "Cargo.lock"), scratch + "/Cargo.lock")
-    # find module file containing the harness
-    modfile = None
-    for f in os.listdir(scratch + "/src"):
-        s = open(os.path.join(scratch, "src", f)).read()
-        if re.search(r"fn " + re.escape(harness.split("::")[-1]) + r"\b", s):
-            modfile = os.path.join(scratch, "src", f); break
+    # module file of the harness (harness path is <module>::<fn>)
+    modfile = os.path.join(scratch, "src", harness.split("::")[0] + ".rs")
+    if not os.path.exists(modfile): modfile = None
     if modfile is None:
         return None, replay_path, "harness source not found"
     open(modfile, "a").write("\n" + test + "\n")
     results = []
     for prof in ([], ["--release"]):
-        cmd = ["cargo", "kani", "playback", "-Z", "concrete-playback"] + (["-Z", "stubbing"] if stubbing else []) + prof + ["--", tname]
+        cmd = ["cargo", "kani", "playback", "-Z", "concrete-playback"] + (["-Z", "stubbing"] if stubbing else []) + prof + ["--", "kani_concrete_playback_"]
         e = dict(env); e["CARGO_TARGET_DIR"] = os.path.join(WORK, "kani-pb-target")
         rc2, out2 = sh(cmd, cwd=scratch, timeout=900, env=e)
         failed = ("test result: FAILED" in out2) or ("panicked at" in out2)
-        ran = "running 1 test" in out2
+        ran = re.search(r"running [1-9]\d* tests?", out2) is not None
         results.append((" ".join(prof) or "dev", ran, failed, out2[-1500:]))
     shutil.rmtree(scratch, ignore_errors=True)
     if not any(r[1] for r in results):
